@@ -121,6 +121,7 @@ type c14Outcome struct {
 	Window     bool // a read that missed the cache was followed by a completed mutation of the key
 	LateWB     bool // a write-back landed after such a mutation
 	Overlap    bool // two list updates overlapped between their read and their write
+	TTLSets    map[string]int // nil-returned Sets per TTL class
 	Concurrent bool // two list updates were in flight at the same time (history level)
 	FaultHit   bool
 	Calls      map[string]int
@@ -246,6 +247,14 @@ func (ev *c14Eval) hop(id int) *c14HOp {
 }
 
 func (ev *c14Eval) coverage() {
+	for _, h := range ev.hist {
+		if h.Kind == "set" && h.TTL != "" && h.Err == "" {
+			if ev.out.TTLSets == nil {
+				ev.out.TTLSets = map[string]int{}
+			}
+			ev.out.TTLSets[h.TTL]++
+		}
+	}
 	firstHit := -1
 	for _, r := range ev.log {
 		if r.Tier == "pers" && r.Op == "Get" && r.Hit && r.Phase == 1 && !c14IsBg(r.Thread) {
@@ -396,6 +405,9 @@ func (ev *c14Eval) routing() {
 			if t.Op == want && !t.Err {
 				got[t.Tier] = true
 			}
+			if h.TTL != "" && t.Op == "Delete" && !t.Err && t.Tier != "pers" {
+				got[t.Tier] = true // dropping the cache entry of an already-expired write is as good as writing it
+			}
 		}
 		if injected {
 			continue // judged by the behavioural oracle
@@ -467,6 +479,10 @@ var c14RegModel = porcupine.Model{
 		switch in.Kind {
 		case "set":
 			return true, in.Val
+		case "set-expiring":
+			// Set with a negative (already expired) or tiny TTL that returned nil: later
+			// reads see the new value or nothing - never an older value
+			return true, in.Val + "\x00"
 		case "del":
 			return true, ""
 		case "fail-set", "fail-del":
@@ -529,6 +545,8 @@ func (ev *c14Eval) linearizable(view []int) (legal bool, unknown bool) {
 			if h.Err != "" {
 				in.Kind = "fail-" + h.Kind
 				ret = maxT + 10 // may take (partial) effect at any later time
+			} else if h.Kind == "set" && h.TTL != "" {
+				in.Kind = "set-expiring"
 			}
 		case "get", "exists":
 			if h.Err != "" || !c14InView(h.Node, view) {
@@ -580,6 +598,18 @@ func (ev *c14Eval) registers() {
 		}
 		upto := len(ev.log)
 		sig, why := ev.classify(node, upto, "")
+		if sig == "" {
+			for _, h := range ev.hist {
+				if h.Kind == "set" && h.TTL != "" && h.Err == "" {
+					cls := "negative"
+					if h.TTL == "tiny" {
+						cls = "tiny"
+					}
+					sig = fmt.Sprintf("C14:ttl|category=%s|ttl=%s|fault=older-value-served", ev.cat(), cls)
+					why = "a Set with an already-expired / tiny TTL returned nil, yet later reads return a value older than it (neither the new value nor not-found)"
+				}
+			}
+		}
 		if sig == "" {
 			if divergence {
 				sig = fmt.Sprintf("C14:crossnode|category=%s", ev.cat())
